@@ -65,6 +65,35 @@ def run_farm(ctx, binp, clis, args, tag):
         os.environ.update(old)
 
 
+def minimise(ctx, binp, clis, j):
+    """try the same file with a single type in -types; keep the first that still differs"""
+    d = j["def"]
+    if len(d["types"]) < 2:
+        return j
+    cands = []
+    for k, t in enumerate(d["types"]):
+        c = dict(d)
+        c["types"] = [t]
+        c["structs"] = [s for s in (d.get("structs") or []) if s["type"] == t]
+        c["enums"] = [e for e in (d.get("enums") or []) if e["type"] == t]
+        c["errors"] = [e for e in (d.get("errors") or []) if e["type"] == t]
+        cands.append(c)
+    p = os.path.join(ctx.scratch, "min_defs.json")
+    out = j
+    for k, c in enumerate(cands):          # one farm per candidate: same package name, separate work dirs
+        with open(p, "w") as f:
+            json.dump([c], f)
+        terms, jsons, err = run_farm(ctx, binp, clis, ["-defs", p, "-reps", 10], "min%d" % k)
+        if err:
+            continue
+        bad, _, err = ctx.judge_cases(HEADER, "gd_case", "gd_judge", terms, shard=40, tag="min%d" % k)
+        if not err and bad and bad[0][1] == 1:
+            out = jsons[0]
+            out["def"]["minimised_from_types"] = d["types"]
+            break
+    return out
+
+
 def report_bad(ctx, j, code):
     rep = {"case": view(j), "replay_cmd": "./check C14 --replay <this file>", "def": j["def"]}
     if code == 1:
@@ -118,8 +147,11 @@ def run(ctx):
         ctx.report({"unchecked": "in-kernel evaluation of the judgement", "detail": err},
                    {"kind": "coq_eval"}, failing_input=False)
         return
-    for i, code in bad:
-        report_bad(ctx, jsons[i], code)
+    for k, (i, code) in enumerate(bad):
+        j = jsons[i]
+        if code == 1 and k < 2:
+            j = minimise(ctx, binp, clis, j)
+        report_bad(ctx, j, code)
     gens = sum(len(j["obs"]) for j in jsons)
     failed = [j for j in jsons if any(o.get("err") for o in j["obs"])]
     produced = [j for j in jsons if all(o["sha"] and not o.get("err") for o in j["obs"])]
@@ -137,6 +169,11 @@ def run(ctx):
         "map_kept_things": {k: sum((j["def"].get("counts") or {}).get(k, 0) for j in jsons)
                             for k in sorted({k for j in jsons for k in (j["def"].get("counts") or {})})},
         "gsort_block_order_judged_against_model": n_gsort,
+        "genum_value_lists_judged_against_Value_Less": sum(len(j.get("value_orders") or []) for j in jsons),
+        "genum_value_list_entries": sum(len(v) for j in jsons for v in (j.get("value_orders") or [])),
+        "trait_method_and_gerror_field_orders_judged": sum(len(j.get("name_orders") or []) for j in jsons),
+        "order_samples": [{"generator": j["def"]["gen"], "value_orders": (j.get("value_orders") or [])[:3],
+                           "name_orders": (j.get("name_orders") or [])[:3]} for j in jsons[1:3]],
         "samples": [view(j) for j in jsons[:3]],
         "failing_generation_samples": [{"def": view(j)["definition"][:600], "err": [o.get("err") for o in j["obs"]][:2]} for j in failed[:2]],
         "disagreements": len(bad),
